@@ -591,6 +591,90 @@ def _reentry_conds(func, h, body):
     return out if out else None
 
 
+def _ret_range(func, call):
+    """(min, max) of what a repository function returns, when every exit returns a constant"""
+    prog = _PROG[0]
+    fn = call.get("fn")
+    g = prog.resolve(func, fn) if (prog is not None and fn) else None
+    if g is None:
+        return None
+    try:
+        summ = call_summary(g, {}, 1, cache_key="range")
+    except Exception:
+        return None
+    if not summ:
+        return None
+    vals = []
+    for subst, hyps, rl in summ:
+        if rl is None or not rl.is_const():
+            return None
+        vals.append(rl.k)
+    return (min(vals), max(vals))
+
+
+def _counter_bound(func, h, body, v):
+    """A local counter v with a single store in the loop, an increment by a non-negative amount
+    of at most M, and a conjunct of the loop's own test that bounds v from above:
+    (condition node, M), meaning `v <= (bound implied by the condition) + M` is an invariant of
+    the loop head as soon as it holds on arrival (and v never decreases)."""
+    cfg = func.cfg
+    sts = []
+    for b in body:
+        for e in cfg.blocks[b].ev:
+            n = func.nodes.get(e)
+            if n is None:
+                continue
+            tgt = None
+            if n["k"] == "bin" and n["op"] in ASSIGN_OPS_B:
+                tgt = n["l"]
+            elif n["k"] == "un" and n["op"] in ("post++", "pre++", "post--", "pre--"):
+                tgt = n["e"]
+            if tgt is not None and tgt["k"] == "ref" and tgt["name"] == v:
+                sts.append(n)
+            if n["k"] == "call" and any(strip_casts(a)["k"] == "un" and strip_casts(a)["op"] == "&" and
+                                        strip_casts(a)["e"].get("name") == v for a in n["args"]):
+                return None
+    if len(sts) != 1:
+        return None
+    n = sts[0]
+    if n["k"] == "un" and n["op"] in ("post++", "pre++"):
+        M = 1
+    elif n["k"] == "bin" and n["op"] == "+=":
+        r = strip_casts(n["r"])
+        if cval(r) is not None and cval(r) >= 0:
+            M = cval(r)
+        elif r["k"] == "call":
+            rr = _ret_range(func, r)
+            if rr is None or rr[0] < 0:
+                return None
+            M = rr[1]
+        else:
+            return None
+    else:
+        return None
+    # the loop's own test: the conditions of the header chain that must hold to reach the store
+    conds = []
+    for cid, t in cfg.facts_at(n["id"]):
+        c = func.nodes.get(cid)
+        if c is None or not t:
+            continue
+        pb = cfg.branch_of_cond(cid)
+        if pb is None or pb.id not in body:
+            continue
+        conds.append(c)
+    for c in conds:
+        # evaluated at the top of each pass: the header itself or a block only reached from it
+        # through condition blocks
+        if any(r_["name"] == v for r_ in refs(c)) and not _impure_cond(c):
+            return (c, M)
+    return None
+
+
+def _impure_cond(c):
+    from .lin import _impure
+    return _impure(c)
+
+
 class _St:
     __slots__ = ("subst", "hyps", "byid", "epoch")
 
@@ -832,6 +916,7 @@ def path_states(func, target_nid, init_hyps=None, max_paths=4000, header_hyps=No
                     # arrival; a later pass from unknown values for which the continuation
                     # test held
                     first = st.copy()
+                entry_vals = {nm: (subst.get(nm) or Lin({nm: 1})) for nm in lsn[it[1]] if nm.isidentifier()}
                 for nm in lsn[it[1]]:
                     subst[nm] = Lin({"?%s@h%d" % (nm, it[1]): 1})
                     epoch[nm] = epoch.get(nm, 0) + 1
@@ -846,8 +931,41 @@ def path_states(func, target_nid, init_hyps=None, max_paths=4000, header_hyps=No
                 if header_hyps and (assume_fields is None or
                                     any(nm.endswith("->" + fl) for nm in lsn[it[1]] for fl in assume_fields)):
                     st.hyps += header_hyps(subst)
+                # guarded counters: v <= bound + step is inductive once it holds on arrival
+                forks = []
+                for nm, v0 in entry_vals.items():
+                    cb = _counter_bound(func, it[1], body_, nm)
+                    if cb is None:
+                        continue
+                    cnode, M = cb
+                    vh = subst[nm]
+                    for L in cmp_constraints(cnode, True, subst):
+                        if isinstance(L, tuple):
+                            continue
+                        atom = next(iter(vh.c)) if len(vh.c) == 1 else None
+                        if atom is None or L.c.get(atom, 0) != -1:
+                            continue
+                        U = L + vh                      # the test says v <= U
+                        if any(a_.startswith("?") and "@h%d" % it[1] in a_ for a_ in U.c):
+                            continue                    # the bound itself changes in the loop
+                        if prove_le(v0, U + Lin(k=M), st.hyps) == PROVEN:
+                            st.hyps.append(U + Lin(k=M) - vh)
+                        elif len(forks) < 2:
+                            # `v == value on arrival  or  v <= bound + step` is inductive
+                            forks.append((vh, v0, U + Lin(k=M)))
+                    st.hyps.append(vh - v0)              # never decreases
+                outs = [st]
+                for vh, v0, ub in forks:
+                    nxt = []
+                    for s_ in outs:
+                        a_, b_ = s_.copy(), s_.copy()
+                        a_.hyps.append(v0 - vh)          # still the value on arrival
+                        b_.hyps.append(ub - vh)
+                        nxt += [a_, b_]
+                    outs = nxt
                 if first is not None:
-                    return [first, st]
+                    return [first] + outs
+                return outs
             return [st]
         if it[0] == "br":
             c = func.nodes[it[1]]
